@@ -67,8 +67,8 @@ def exact_oracle(ctx, cases):
             res = ("raises", f"{type(e).__name__}: {e}")
         ctx.bump("exact-oracle")
         if res is not None:
-            small = shrink_exact(case) if res[0] != "raises" else case
-            res2 = l2b.c05_oracle(small) if res[0] != "raises" else res
+            small = shrink_exact(case)
+            res2 = l2b.c05_oracle(small) or res
             ctx.impl_fail(exact_signature(small, res2[0]), res2[1] + " (stub sources, exact)",
                           {"kind": "exact", "case": small})
 
@@ -86,8 +86,9 @@ def correspondence(ctx, built):
         try:
             out, ids, lens = l2b.c05_impl(case)
         except Exception as e:   # pylint: disable=broad-except
-            ctx.impl_fail(exact_signature(case, "raises"), f"valid source list raised {type(e).__name__}: {e}",
-                          {"kind": "exact", "case": case})
+            small = shrink_exact(case)
+            ctx.impl_fail(exact_signature(small, "raises"), f"valid source list raised {type(e).__name__}: {e}",
+                          {"kind": "exact", "case": small})
             continue
         lay = l2b.layout_of(case)
         ctx.case(json.dumps(case, sort_keys=True), "C" in lay)
@@ -284,10 +285,9 @@ def lin_search(ctx, n_per_class):
             e1 = [x * scale for x in l2b.rvec(rng, -1, 1)] if vec else rng.uniform(-3, 3)
             e2 = [x * scale for x in l2b.rvec(rng, -1, 1)] if vec else rng.uniform(-3, 3)
             a, b = rng.uniform(-3, 3), rng.uniform(-3, 3)
-            if rng.random() < 0.15:
-                b = 0.0              # pure scaling
-            if rng.random() < 0.3:   # all real scalings: also very small and very large factors
-                a = rng.choice([-1, 1]) * 10.0 ** rng.uniform(-8, 8)
+            if rng.random() < 0.35:  # pure scaling by any real factor, also very small and very large ones
+                b = 0.0
+                a = rng.choice([-1, 1]) * 10.0 ** rng.uniform(-9, 9)
             try:
                 dev = lin_eval(d, pts, field, a, b, e1, e2, use_mag)
             except Exception as e:   # pylint: disable=broad-except
